@@ -916,7 +916,11 @@ class Interp:
                 if ok:
                     out.append(self.eval(n.elt, e2))
             return out
-        # symbolic range with scalar element and no filter -> definitional list
+        # symbolic range / sequence with scalar element and no filter -> definitional list
+        if isinstance(it, Arr) and it.ndim == 1:
+            seq = N.snap(it)
+            it = SymRange(0, seq.shape[0])
+            it.item = lambda i, seq=seq: seq.fn(i)
         if isinstance(it, SymRange) and not g.ifs and isinstance(g.target, ast.Name):
             length = it.length()
             probe_env = dict(env)
